@@ -118,6 +118,14 @@ def compile_top(cls, timeout=20, **kw):
     except CompileTimeout:
         raise Rejected('CompileTimeout', f'compiler watchdog ({timeout}s)', buf.getvalue()) from None
     except BaseException as e:      # noqa
+        if isinstance(e, (NameError, ImportError)) and e.__traceback__ is not None:
+            # raised by a plain-Python statement of the generated source itself (architecture body executed by CPython):
+            # a generator bug, not a verdict of the compiler -- must not be counted as a rejection
+            tb = e.__traceback__
+            while tb.tb_next is not None:
+                tb = tb.tb_next
+            if 'cohdl-verif-' in tb.tb_frame.f_code.co_filename:
+                raise RuntimeError(f"generated source is not valid Python: {type(e).__name__}: {e}") from None
         raise Rejected(type(e).__name__, str(e), buf.getvalue()) from None
     finally:
         if use_alarm:
